@@ -21,6 +21,7 @@ type StoreEvent struct {
 	Via    []*ssa.Function // callee chain (outermost first); empty for a direct store
 	InCond bool            // inside the (innermost) callee the store is conditional
 	Inc    bool            // the store writes <old value> + 1
+	Init   bool            // the written object is allocated in the same function (constructor / composite literal)
 }
 
 type effKey struct {
@@ -110,6 +111,11 @@ func (c *Ctx) fieldStores(fn *ssa.Function, suffix string, depth int) []StoreEve
 		}
 	}
 	_ = ff
+	for i := range out {
+		if al, ok := out[i].Root.(*ssa.Alloc); ok && al.Parent() == fn && al.Heap {
+			out[i].Init = true
+		}
+	}
 	c.eff[k] = out
 	return out
 }
